@@ -433,7 +433,18 @@ func tlPinned(s *Stream, rng *Rng, L, Q, nPinned int) {
 	sc := tlScenario{Kind: "pinned", L: L, Q: Q, Seed: rng.s}
 	ctx, cancel := context.WithCancel(context.Background())
 	defer cancel()
+	// every fifth lane is built while the process has a single P (a container with one CPU at
+	// start-up): the number of workers must not depend on that
+	oneP := rng.Intn(5) == 0
+	var oldProcs int
+	if oneP {
+		oldProcs = runtime.GOMAXPROCS(1)
+		sc.Detail = "lane built with GOMAXPROCS=1; "
+	}
 	tl := tasklane.New(ctx, L, Q)
+	if oneP {
+		runtime.GOMAXPROCS(oldProcs)
+	}
 	tl.SetTimeout(tlDeadline)
 	r := newTLRun()
 	release := make(chan struct{})
@@ -453,7 +464,7 @@ func tlPinned(s *Stream, rng *Rng, L, Q, nPinned int) {
 	m := 3 + rng.Intn(3*(Q+2))
 	sc.NTasks = m
 	target := rng.Intn(L)
-	sc.Detail = fmt.Sprintf("%d short tasks pushed to lane %d while %d of %d workers are pinned", m, target, nPinned, L)
+	sc.Detail += fmt.Sprintf("%d short tasks pushed to lane %d while %d of %d workers are pinned", m, target, nPinned, L)
 	for i := 0; i < m; i++ {
 		t := &tlTask{id: i, r: r}
 		err := tl.PushTask(t, target)
@@ -866,6 +877,30 @@ func tlOddLifetimes(s *Stream, rng *Rng, L, Q int) {
 		s.Evaluations++
 	}
 	s.Nontrivial(fmt.Sprintf("push-right-after-cancel/%d/%d", L, Q))
+	// (d) cancel lands mid-task: Wait returns once the started task has returned - not before
+	{
+		sc := tlScenario{Kind: "cancel-mid-task", L: L, Q: Q}
+		ctx, cancel := context.WithCancel(context.Background())
+		tl := tasklane.New(ctx, L, Q)
+		tl.SetTimeout(tlDeadline)
+		r := newTLRun()
+		release := make(chan struct{})
+		t := &tlTask{id: 1, r: r, block: release}
+		err := tl.PushTask(t, rng.Intn(L))
+		waitUntil(tlDeadline, func() bool { return r.isStarted(1) })
+		cancel()
+		returned := make(chan struct{})
+		go func() { tl.Wait(); close(returned) }()
+		select {
+		case <-returned:
+			s.Violate("wait-returned-while-task-running", "Wait() returned after cancel although a started task has not returned yet", sc)
+		case <-time.After(25 * time.Millisecond):
+		}
+		close(release)
+		tlFinalChecks(s, sc, tl, r, []tlPush{{1, 0, err}}, ctx)
+		s.Evaluations++
+		s.Nontrivial(fmt.Sprintf("cancel-mid-task/%d/%d", L, Q))
+	}
 	// (c)
 	{
 		sc := tlScenario{Kind: "goexit-task", L: L, Q: Q}
